@@ -171,7 +171,8 @@ def followups(kind):
                     if choice == "unparsable" and rep == "datetime":
                         continue
                     # (set_time documents its arguments as datetime or string: no typed literal there)
-                    for path in ("attrs-dict", "attrs-list") + (("set_time",) if kind == "activity" and rep != "literal" else ()):
+                    for path in ("attrs-dict", "attrs-list") + (("set_time",) if kind == "activity" and rep != "literal" else ()) + (
+                            ("attrs-iter",) if rep == "datetime" else ()):
                         out.append((i, fa, choice, rep, path))
                     if choice != "unparsable":
                         out.append((i, fa, choice, rep, "one-call-two-values:dict-then-list"))
@@ -180,7 +181,8 @@ def followups(kind):
                 for rep in REF_REPRS:
                     if choice == "unparsable" and rep != "string":
                         continue
-                    for path in ("attrs-dict", "attrs-list"):
+                    # (attrs-iter: the pairs arrive as a one-shot iterator, "an iterable of tuples")
+                    for path in ("attrs-dict", "attrs-list") + (("attrs-iter",) if rep == "qname" else ()):
                         out.append((i, fa, choice, rep, path))
                     if choice != "unparsable":
                         out.append((i, fa, choice, rep, "one-call-two-values:dict-then-list"))
@@ -271,6 +273,8 @@ def apply_followup(doc, rec, model, fu):
             expected = "refuse"
         if path == "attrs-dict":
             thunk = lambda: rec.add_attributes({PROV[fa]: val})
+        elif path == "attrs-iter":
+            thunk = lambda: rec.add_attributes(iter([(PROV[fa], val)]))
         else:
             thunk = lambda: rec.add_attributes([("prov:" + fa, val)])
     return expected, thunk, new_model
@@ -618,6 +622,9 @@ def record_items(tier):
                         continue
                     for mask in masks:
                         items.append((kind, path, rrep, trep, mask))
+                    if req == 2 and path != "factory":
+                        # new_record can leave out the second formal argument too (it is supplied by a follow-up)
+                        items.append((kind, path, rrep, trep, (True, False) + (False,) * opt))
         if kind in CONVENIENCE:
             for rrep in REF_REPRS:
                 for trep in TIME_REPRS:
